@@ -24,7 +24,7 @@ import ast
 
 from ..core import Ctx, Ob, ok, unres, viol
 from ..flow import LocalDefs
-from ..model import ClassInfo, FuncInfo, dotted, unparse, walk_no_nested
+from ..model import ClassInfo, FuncInfo, dotted, is_self_attr, unparse, walk_no_nested
 
 SEMIRING = "cirkit.backend.torch.semiring.SemiringImpl"
 
@@ -581,4 +581,72 @@ def r11l(ctx: Ctx, modules: tuple[str, ...] = ("cirkit.backend.torch.layers",)) 
                         obs.append(viol("R11l", f.qualname, f"zero-times-log:{unparse(b)[:40]}", f"`{unparse(b)[:80]}` multiplies an input-derived factor by `{unparse(c)[:50]}`, the unclamped logarithm of a parameter: at the in-support point where the factor is 0 and the probability has rounded to 0 / 1 this is 0 * -inf = nan (use torch.xlogy / xlog1py, or clamp the probability as torch.distributions does)", f"{f.module.relpath}:{b.lineno}"))
                         break
     obs.append(ok("R11l", "cirkit.backend.torch.layers", "count-times-log", f"{n} product(s) of an input-derived factor with an unclamped log of a parameter", "", nontrivial=False))
+    return obs
+
+
+T_EXPFAM = "cirkit.backend.torch.layers.input.TorchExpFamilyLayer"
+
+
+def r11m(ctx: Ctx) -> list[Ob]:
+    """R11m -- a likelihood normalised by torch.distributions has no partition function of its own.
+
+    An exponential-family layer returns ``log_unnormalized_likelihood(x) - log_partition_function()``
+    as its log-density, and ``integrate`` of it is ``log_partition_function()``.  When the
+    "un-normalised" likelihood is a ``torch.distributions`` ``log_prob`` (already normalised), possibly
+    plus a parameter ``A`` of the layer (the Gaussian's explicit log-partition), the partition
+    function has to be exactly that ``A`` -- zeros when nothing is added.  Anything else (the
+    textbook log-normaliser ``n * softplus(logits)`` of a Binomial) is counted twice: densities no
+    longer sum to one and marginals of the layer are off by that factor, on that parameterisation
+    only."""
+    obs: list[Ob] = []
+    base = ctx.repo.cls(T_EXPFAM)
+    n_cls = 0
+    for c in ctx.repo.subclasses(base):
+        lik = c.methods.get("log_unnormalized_likelihood")
+        part = c.methods.get("log_partition_function")
+        if lik is None or part is None:
+            continue
+        ld = LocalDefs(lik.node)
+        rets = [r.value for r in walk_no_nested(lik.node) if isinstance(r, ast.Return) and r.value is not None]
+        if not rets:
+            continue
+
+        def is_log_prob(e: ast.AST) -> bool:
+            return isinstance(e, ast.Call) and isinstance(e.func, ast.Attribute) and e.func.attr == "log_prob"
+
+        normalised = True
+        addends: set[str] = set()
+        for r in rets:
+            exps = [r, *ld.expand(r)]
+            if not any(is_log_prob(x) for e in exps for x in ast.walk(e)):
+                normalised = False
+                break
+            for e in exps:
+                for b in ast.walk(e):
+                    if isinstance(b, ast.BinOp) and isinstance(b.op, (ast.Add, ast.Sub)):
+                        for side in (b.left, b.right):
+                            for ex in [side, *ld.expand(side)]:
+                                if any(is_log_prob(x) for x in ast.walk(ex)):
+                                    continue
+                                for k in ast.walk(ex):
+                                    a = is_self_attr(k.func) if isinstance(k, ast.Call) else None
+                                    if a is not None:
+                                        addends.add(a)
+        if not normalised:
+            continue
+        n_cls += 1
+        ldp = LocalDefs(part.node)
+        for r in [r for r in walk_no_nested(part.node) if isinstance(r, ast.Return) and r.value is not None]:
+            loc = f"{part.module.relpath}:{r.lineno}"
+            exps = [r.value, *ldp.expand(r.value)]
+            calls = {(k.func.attr if isinstance(k.func, ast.Attribute) else getattr(k.func, "id", "")) for e in exps for k in ast.walk(e) if isinstance(k, ast.Call)}
+            attrs = {a for e in exps for k in ast.walk(e) if isinstance(k, ast.Call) and (a := is_self_attr(k.func)) is not None}
+            inst = f"partition-of-normalised:{unparse(r.value)[:30]}"
+            if attrs and attrs <= addends:
+                obs.append(ok("R11m", c.qualname, inst, f"returns the parameter(s) {sorted(attrs)} that the likelihood adds to the normalised log_prob", loc))
+            elif not attrs and calls & {"zeros", "zeros_like", "new_zeros"}:
+                obs.append(ok("R11m", c.qualname, inst, "zero: the likelihood is a normalised log_prob", loc))
+            else:
+                obs.append(viol("R11m", c.qualname, inst, f"log_unnormalized_likelihood is a torch.distributions log_prob (already normalised{', plus ' + str(sorted(addends)) if addends else ''}) but log_partition_function returns `{unparse(r.value)[:60]}` computed from {sorted(attrs) or 'other quantities'}: the normaliser is counted twice -- the layer's density no longer sums to one and integrate() is off by that factor", loc))
+    obs.append(ok("R11m", "cirkit.backend.torch.layers.input", "normalised-likelihoods", f"{n_cls} exponential-family layer(s) whose likelihood is a torch.distributions log_prob", "", nontrivial=False))
     return obs
